@@ -374,6 +374,14 @@ func genScenario(r *zsimrt.Rand, run, seed uint64, cold bool, c *corpus) *Scenar
 		// the library takes locks: spend a good share of the runs preempting exactly at lock releases/acquires
 		pols = append(pols, "sync", "sync", "sync", "sync")
 	}
+	if zsimrt.UsesAtomic {
+		// the library uses atomics: lock-free protocols break between two atomic operations,
+		// which is exactly where park freezes a task
+		pols = append(pols, "park", "park", "park", "park")
+	}
+	if famShape {
+		pols = append(pols, "park", "park", "park")
+	}
 	sp := SchedSpec{Policy: pols[r.Intn(len(pols))]}
 	sp.SyncQ = []int{1, 2, 4, 10, 30}[r.Intn(5)]
 	if zsimrt.UsesTime {
